@@ -1,0 +1,9 @@
+//go:build verif
+
+// Contracts for the deductive verifier in /verif (comment-only: adds no declarations).
+package vip
+
+// Verdicts of the Symantec VIP service (uninterpreted; the SOAP exchange itself is not modelled).
+//@ ghost func vipPushStartedFor(tx string, user string) bool
+//@ func (*Client).StartUserVIPPush
+//@   assume err == nil ==> vipPushStartedFor(transactionID, userID)
